@@ -21,9 +21,11 @@ var Decoder = map[TypeID]DecoderFunc{
 	GroupedType:          DecodeGrouped,
 	IPFilterRuleType:     DecodeIPFilterRule,
 	IPv4Type:             DecodeIPv4,
+	IPv6Type:             DecodeIPv6,
 	Integer32Type:        DecodeInteger32,
 	Integer64Type:        DecodeInteger64,
 	OctetStringType:      DecodeOctetString,
+	QoSFilterRuleType:    DecodeQoSFilterRule,
 	TimeType:             DecodeTime,
 	UTF8StringType:       DecodeUTF8String,
 	Unsigned32Type:       DecodeUnsigned32,
